@@ -566,9 +566,12 @@ func processOther(j *otherJob) {
 	before := sim.DeepSig(j.ref)
 	var eui lorawan.EUI64
 	switch j.ref.MHDR.MType {
-	case lorawan.JoinRequest, lorawan.RejoinRequest:
-		j.ref.ValidateUplinkJoinMIC(lorawan.AES128Key(j.key))
-		j.phy.ValidateUplinkJoinMIC(lorawan.AES128Key(j.key))
+	case lorawan.JoinRequest, lorawan.RejoinRequest, lorawan.Proprietary:
+		// (the join MIC functions are the only ones that take a frame of any
+		// other type; whether they accept a proprietary frame or refuse it,
+		// they only inspect it)
+		quiet(func() { j.ref.ValidateUplinkJoinMIC(lorawan.AES128Key(j.key)) })
+		quiet(func() { j.phy.ValidateUplinkJoinMIC(lorawan.AES128Key(j.key)) })
 	case lorawan.JoinAccept:
 		j.ref.ValidateDownlinkJoinMIC(lorawan.JoinRequestType, eui, 1, lorawan.AES128Key(j.key))
 		j.phy.ValidateDownlinkJoinMIC(lorawan.RejoinRequestType0, eui, 2, lorawan.AES128Key(j.key))
